@@ -148,9 +148,15 @@ class MEngine:
 
     def collect(self):
         ctx = self.ctx
+        cross = []
         for p in self.pending:
             verdict, out, dt = p['fut'].result()
             ctx.solver_time += dt
+            if ctx.tier == 'thorough' and verdict == 'unsat' and p['expect'] == 'unsat' and not p.get('vac') and p.get('text'):
+                # thorough tier: every discharged obligation is put to two other solvers as well (cvc5 1.0, z3 4.8.12); a `sat` from
+                # either is treated exactly like a refutation by the primary solver (native replay decides)
+                for other in ('cvc5', 'z3'):
+                    cross.append((p, other, self.pool.submit(p['text'], other, 45, ctx.seed)))
             if verdict == p['expect'] and p.get('vac'):
                 ctx.extra['vacuity_guards_passed'] = ctx.extra.get('vacuity_guards_passed', 0) + 1
             elif verdict == p['expect']:
@@ -167,6 +173,20 @@ class MEngine:
                 ctx.record(p['name'], 'M', 'inconclusive', key=p['key'], time_s=dt, detail='%s: %s' % (verdict, out[:200]))
                 ctx.inconclusive.append('%s: solver answered %s after %.0fs' % (p['name'], verdict, dt))
         self.pending = []
+        agree = undecided = 0
+        for p, other, fut in cross:
+            verdict, out, dt = fut.result()
+            ctx.solver_time += dt
+            if verdict == 'unsat':
+                agree += 1
+            elif verdict == 'sat':
+                self._candidate(dict(p, name=p['name'] + ' [' + other + ']'), out, dt, 'obligation "%s" discharged by %s but refuted by %s' % (p['name'], p['solver'], other))
+            else:
+                undecided += 1
+        if cross:
+            cs = ctx.extra.setdefault('cross_solver', {'second_opinions_unsat': 0, 'second_opinions_undecided': 0, 'solvers': 'cvc5 1.0, z3 4.8.12, 45 s each'})
+            cs['second_opinions_unsat'] += agree
+            cs['second_opinions_undecided'] += undecided
 
     def finish(self):
         self.collect()
